@@ -50,6 +50,19 @@ def has_crlf(w):
     return T.OR(has_char('\n', w), has_char('\r', w))
 
 
+# characters whose presence/absence the quoting layer must preserve (later layers need to know that quoting
+# introduces no line break, `#`, parenthesis or comma)
+PRESERVED = '\n\r#(),'
+
+
+def preserves(src, dst):
+    return T.AND(*[has_char(ch, dst) == has_char(ch, src) for ch in PRESERVED])
+
+
+def preserves_absence(src, dst):
+    return T.AND(*[z3.Implies(z3.Not(has_char(ch, src)), z3.Not(has_char(ch, dst))) for ch in PRESERVED])
+
+
 def code_bad_class():
     """The class the *code* uses to decide whether to quote (re-read from the imported module)."""
     fam = RX.classify(posix._bad_chars.pattern)
@@ -112,7 +125,7 @@ def _repl_stmt(u):
 L_repl = Lemma('replace_is_sq_escape', [('u', T.Str)], _repl_stmt, induct=('snoc', 'u'))
 
 L_sq_crlf = Lemma('sq_escape_adds_no_linebreak', [('u', T.Str)],
-                  lambda u: T.AND(has_char('\n', sq(u)) == has_char('\n', u), has_char('\r', sq(u)) == has_char('\r', u)),
+                  lambda u: preserves(u, sq(u)),
                   induct=('snoc', 'u'))
 
 LEMMAS = [L_sq_body, L_inert, L_class, L_repl, L_sq_crlf]
@@ -147,8 +160,7 @@ class InnerQuoteInfoStr(Contract):
             'plain_only_if_inert': z3.Implies(z3.Not(q), T.AND(z3.Length(s) > 0, z3.Not(not_inert(s)))),
             'quoted_body': z3.Implies(q, M.sym_str(res) == sq(s)),
             'plain_body': z3.Implies(z3.Not(q), M.sym_str(res) == s),
-            'no_new_linebreaks': T.AND(has_char('\n', M.sym_str(res)) == has_char('\n', s),
-                                       has_char('\r', M.sym_str(res)) == has_char('\r', s)),
+            'no_new_linebreaks': preserves(s, M.sym_str(res)),
         }
 
     def proof(self, p, a, r, name, case):
@@ -184,8 +196,9 @@ class WrapQuotes(Contract):
 
     def ensures(self, a, r):
         return {'one_closed_word': frag(M.sym_str(r), a.m),
-                'no_new_linebreaks': T.AND(*[z3.Implies(z3.Not(has_char(ch, M.sym_str(a.s))), z3.Not(has_char(ch, M.sym_str(r))))
-                                             for ch in '\n\r'])}
+                'no_new_linebreaks': preserves_absence(M.sym_str(a.s), M.sym_str(r)),
+                'first_char_is_quote_or_backslash': T.AND(z3.Length(M.sym_str(r)) > 0,
+                                                          z3.Or(M.sym_str(r)[0] == QUOTE, M.sym_str(r)[0] == 92))}
 
     def result_value(self, I, a):
         return fresh_sym('wq', 'str')
@@ -217,6 +230,17 @@ class WrapQuotes(Contract):
     def proof(self, p, a, r, name, case):
         if name == 'no_new_linebreaks':
             return self.proof_crlf(p, a, r)
+        if name == 'first_char_is_quote_or_backslash':
+            m = a.m
+            n = z3.Length(m)
+            e, ne = p.cases('m', [('empty', n == 0), ('nonempty', n > 0)])
+            e.subst('m', m, T.empty())
+            e.qed()
+            m0 = ne.let('m0', value=m[0])
+            rest = ne.let('mrest', value=z3.Extract(m, z3.IntVal(1), n - 1))
+            ne.subst('m', m, T.cat(T.unit(m0), rest))
+            ne.qed()
+            return
         m, s = a.m, M.sym_str(a.s)
         n = z3.Length(m)
         m0 = p.let('m0', value=m[0])
@@ -285,8 +309,10 @@ class QuoteInfoStr(Contract):
             return {'literal_passthrough': M.sym_str(res) == M.sym_str(a.s.attrs['string'])}
         s = M.sym_str(a.s)
         return {'sh_reads_back_exactly_s': frag(M.sym_str(res), s),
-                'no_new_linebreaks': T.AND(*[z3.Implies(z3.Not(has_char(ch, s)), z3.Not(has_char(ch, M.sym_str(res))))
-                                             for ch in '\n\r'])}
+                'no_new_linebreaks': preserves_absence(s, M.sym_str(res)),
+                'first_char': T.AND(z3.Length(M.sym_str(res)) > 0,
+                                    z3.Or(M.sym_str(res)[0] == QUOTE, M.sym_str(res)[0] == 92,
+                                          z3.And(z3.Length(s) > 0, M.sym_str(res)[0] == s[0])))}
 
     def result_value(self, I, a):
         return (fresh_sym('qi_res', 'str'), fresh_sym('qi_quoted', 'bool'))
